@@ -916,31 +916,33 @@ theorem finishCore_facts {s s' : State} {t : Tid} (hs : finishCore s t = some s'
   · have ite_some : ∀ (c : Prop) [Decidable c] (A B : State),
         (if c then some A else some B) = some s' → s' = A ∨ s' = B := by
       intro c _ A B h; split at h <;> injection h with h <;> simp [h]
-    have base : ∀ (p' : Prod), nDropped p'.log = nDropped (s.prod t).log → p'.lostMsgs = (s.prod t).lostMsgs →
-        p'.losts = (s.prod t).losts →
-        (∀ x, nDropped ((s.setProd t p').prod x).log = nDropped (s.prod x).log ∧
-          ((s.setProd t p').prod x).lostMsgs = (s.prod x).lostMsgs ∧ ((s.setProd t p').prod x).losts = (s.prod x).losts) ∧
-        (∀ x, x ≠ t → (s.setProd t p').prod x = s.prod x) := by
-      intro p' h1 h2 h3
+    have base : ∀ (o : Option Nat),
+        (∀ x, nDropped ((s.setProd t { s.prod t with done := true, curr := none, opn := o }).prod x).log =
+            nDropped (s.prod x).log ∧
+          ((s.setProd t { s.prod t with done := true, curr := none, opn := o }).prod x).lostMsgs = (s.prod x).lostMsgs ∧
+          ((s.setProd t { s.prod t with done := true, curr := none, opn := o }).prod x).losts = (s.prod x).losts) ∧
+        (∀ x, x ≠ t → (s.setProd t { s.prod t with done := true, curr := none, opn := o }).prod x = s.prod x) := by
+      intro o
       refine ⟨?_, fun x hx => setProd_prod_ne _ _ hx⟩
       intro x
       by_cases hx : x = t
-      · subst hx; simp [h1, h2, h3]
+      · subst hx; simp
       · rw [setProd_prod_ne _ _ hx]; exact ⟨rfl, rfl, rfl⟩
     cases hc : (s.prod t).curr with
     | none =>
       simp only [hc] at hs; injection hs with hs; subst hs
-      obtain ⟨b1, b2⟩ := base _ rfl rfl rfl
+      obtain ⟨b1, b2⟩ := base _
       exact ⟨b1, b2, fun _ => rfl, rfl, rfl, rfl⟩
     | some c =>
       simp only [hc] at hs
       rcases ite_some _ _ _ hs with e | e
       · subst e
-        obtain ⟨b1, b2⟩ := base _ rfl rfl rfl
+        obtain ⟨b1, b2⟩ := base _
         refine ⟨fun x => by rw [send_prod]; exact b1 x, fun x hx => by rw [send_prod]; exact b2 x hx,
-          fun x => pendingLost_send x (rec_msgs_not_lost t x c).2.1, by simp, by simp, by simp⟩
+          fun x => pendingLost_send x (rec_msgs_not_lost t x c).2.1, by rw [send_lostLog]; rfl,
+          by rw [send_lostCount]; rfl, by rw [send_closed']; rfl⟩
       · subst e
-        obtain ⟨b1, b2⟩ := base _ rfl rfl rfl
+        obtain ⟨b1, b2⟩ := base _
         exact ⟨b1, b2, fun _ => rfl, rfl, rfl, rfl⟩
   · simp at hs
 
@@ -1153,6 +1155,199 @@ theorem both_reachable {cfg : Cfg} {nw : Nat} {s : State} (h : Reachable cfg nw 
     refine ⟨⟨fun _ t => by simp [State.init, nDropped], fun t => by simp [State.init, lostFrom, pendingLost], rfl⟩, ?_⟩
     intro _ t hd; simp [State.init] at hd
   | step a _ hs ih => exact both_step ih hs
+
+/-! ### threads exist only through mcount_prepare -/
+
+def stKey (p : Prod) : Bool := p.started
+
+theorem started_frame {s s' : State} {t : Tid} (hk : (s'.prod t).started = (s.prod t).started)
+    (h : (s'.prod t).started = true) : (s.prod t).started = true := by rw [← hk]; exact h
+
+theorem started_setProd {s : State} {t x : Tid} {p' : Prod} (hp : p'.started = (s.prod t).started) :
+    ((s.setProd t p').prod x).started = (s.prod x).started := by
+  by_cases hx : x = t
+  · subst hx; simpa using hp
+  · rw [setProd_prod_ne _ _ hx]
+
+theorem started_setProd' {s : State} {t x : Tid} {p' : Prod} (h : ((s.setProd t p').prod x).started = true)
+    (hp : p'.started = (s.prod t).started) : (s.prod x).started = true := by
+  rwa [started_setProd hp] at h
+
+theorem started_recordMmap (s : State) (wb : WBuf) (x : Tid) :
+    ((recordMmap s wb).prod x).started = (s.prod x).started := by
+  unfold recordMmap; split
+  · rfl
+  · split <;> rfl
+
+theorem started_writeOut (s : State) (wb : WBuf) (fl : Bool) (x : Tid) :
+    ((writeOut s wb fl).prod x).started = (s.prod x).started := by
+  unfold writeOut
+  cases hb : (s.prod wb.tid).bufs[wb.idx]? with
+  | none => simp only [hb]
+  | some b =>
+    simp only [hb]
+    by_cases hx : x = wb.tid
+    · subst hx; simp [State.setProd]
+    · simp [State.setProd, hx]
+
+/-- `started` becomes true only by `pPrepare` -/
+theorem started_step {cfg : Cfg} {s s' : State} {a : Action} {x : Tid} (hs : step cfg s a = some s')
+    (h : (s'.prod x).started = true) : (s.prod x).started = true ∨ a = .pPrepare x := by
+  cases a with
+  | pPrepare t =>
+    by_cases hx : x = t
+    · subst hx; exact Or.inr rfl
+    · left
+      simp only [step] at hs
+      split at hs
+      · simp at hs
+      · injection hs with hs; subst hs
+        rw [send_prod, setProd_prod_ne _ _ hx] at h; exact h
+  | pWrite t r =>
+    left; simp only [step] at hs
+    split at hs
+    · injection hs with hs; subst hs; exact started_setProd' h rfl
+    · simp at hs
+  | pBump t =>
+    left; simp only [step] at hs
+    split at hs
+    · split at hs
+      · simp at hs
+      · split at hs <;> (injection hs with hs; subst hs; exact started_setProd' h rfl)
+    · simp at hs
+  | pBump2 t =>
+    left; simp only [step] at hs
+    split at hs
+    · split at hs
+      · simp at hs
+      · injection hs with hs; subst hs; exact started_setProd' h rfl
+    · simp at hs
+  | pEnd t r =>
+    left; simp only [step] at hs
+    split at hs
+    · split at hs
+      · injection hs with hs; subst hs; (rw [send_prod] at h; exact started_setProd' h rfl)
+      · injection hs with hs; subst hs; exact started_setProd' h rfl
+    · simp at hs
+  | pPick t ok =>
+    left; simp only [step] at hs
+    split at hs
+    · split at hs
+      · simp at hs
+      · split at hs
+        · split at hs
+          · injection hs with hs; subst hs; exact started_setProd' h rfl
+          · simp at hs
+        · split at hs <;> (injection hs with hs; subst hs; exact started_setProd' h rfl)
+    · simp at hs
+  | pStart t =>
+    left; simp only [step] at hs
+    split at hs
+    · split at hs
+      · simp at hs
+      · injection hs with hs; subst hs; (rw [send_prod] at h; exact started_setProd' h rfl)
+    · simp at hs
+  | pMark t =>
+    left; simp only [step] at hs
+    split at hs
+    · split at hs
+      · simp at hs
+      · split at hs
+        · injection hs with hs; subst hs; (rw [send_prod] at h; exact started_setProd' h rfl)
+        · injection hs with hs; subst hs; exact started_setProd' h rfl
+    · simp at hs
+  | pAbandon t rs cn =>
+    left; simp only [step] at hs
+    split at hs
+    · injection hs with hs; subst hs; exact started_setProd' h rfl
+    · simp at hs
+  | pFinish t =>
+    left; simp only [step] at hs
+    split at hs
+    · rename_i s1 h1
+      injection hs with hs; subst hs
+      have h1s : (s1.prod x).started = (s.prod x).started := by
+        simp only [finishCore] at h1
+        split at h1
+        · have ite_some : ∀ (c : Prop) [Decidable c] (A B : State),
+              (if c then some A else some B) = some s1 → s1 = A ∨ s1 = B := by
+            intro c _ A B h; split at h <;> injection h with h <;> simp [h]
+          cases hc : (s.prod t).curr with
+          | none => simp only [hc] at h1; injection h1 with h1; subst h1; exact started_setProd rfl
+          | some c =>
+            simp only [hc] at h1
+            rcases ite_some _ _ _ h1 with e | e
+            · subst e; rw [send_prod]; exact started_setProd rfl
+            · subst e; exact started_setProd rfl
+        · simp at h1
+      have h2 : ((reportTail cfg t s1).prod x).started = (s1.prod x).started := by
+        unfold reportTail; simp only []; split
+        · rw [send_prod]; exact started_setProd rfl
+        · rfl
+      rw [h2, h1s] at h; exact h
+    · simp at hs
+  | pFinishTrigger t =>
+    left; simp only [step] at hs
+    split at hs
+    · injection hs with hs; subst hs; exact h
+    · simp at hs
+  | kill t =>
+    left; simp only [step] at hs
+    injection hs with hs; subst hs; exact started_setProd' h rfl
+  | rRead =>
+    left; simp only [step] at hs
+    split at hs
+    · simp at hs
+    · injection hs with hs; subst hs; exact h
+    · injection hs with hs; subst hs; rwa [started_recordMmap] at h
+    · injection hs with hs; subst hs; exact h
+    · injection hs with hs; subst hs; exact h
+  | rFlush t i =>
+    left; simp only [step] at hs
+    split at hs
+    · injection hs with hs; subst hs
+      rw [started_recordMmap] at h
+      exact started_setProd' (s := { s with shmemList := s.shmemList.erase ⟨t, i⟩ }) h rfl
+    · simp at hs
+  | rStop =>
+    left; simp only [step] at hs
+    injection hs with hs; subst hs; exact h
+  | rRemaining =>
+    left; simp only [step] at hs
+    split at hs
+    · simp at hs
+    · split at hs
+      · injection hs with hs; subst hs; rwa [started_writeOut] at h
+      · simp at hs
+  | wPick w =>
+    left; simp only [step] at hs
+    split at hs
+    · injection hs with hs; subst hs; exact h
+    · simp at hs
+  | wWrite w =>
+    left; simp only [step] at hs
+    split at hs
+    · injection hs with hs; subst hs; rwa [started_writeOut] at h
+    · simp at hs
+  | wSplice w =>
+    left; simp only [step] at hs
+    split at hs
+    · injection hs with hs; subst hs; exact h
+    · simp at hs
+
+theorem started_run {cfg : Cfg} : ∀ (acts : List Action) (s s' : State) (x : Tid), run cfg s acts = some s' →
+    (s'.prod x).started = true → (s.prod x).started = true ∨ .pPrepare x ∈ acts
+  | [], s, s', x, hr, h => by simp [run] at hr; subst hr; exact Or.inl h
+  | a :: as, s, s', x, hr, h => by
+    simp only [run] at hr
+    split at hr
+    · rename_i s1 hs1
+      rcases started_run as s1 s' x hr h with e | e
+      · rcases started_step hs1 e with e2 | e2
+        · exact Or.inl e2
+        · exact Or.inr (by simp [e2])
+      · exact Or.inr (by simp [e])
+    · simp at hr
 
 end Uft.Shmem
 
